@@ -727,7 +727,14 @@ func Build(tracks []Track, lay FileLayout) (init []byte, segments [][]byte, trut
 			bi := b.top("sidx", topSidxAt, w.pos()-topSidxAt)
 			truth.TopSidx = &bi
 		}
-		if lay.TopSidxGap >= 8 {
+		if lay.TopSidxGap >= 16 && lay.TopSidxGapLarge {
+			p := w.pos()
+			w.u32(1)
+			w.b = append(w.b, "free"...)
+			w.u64(uint64(lay.TopSidxGap))
+			w.zeros(lay.TopSidxGap - 16)
+			b.top("free", p, w.pos()-p)
+		} else if lay.TopSidxGap >= 8 {
 			p := w.open("free")
 			w.zeros(lay.TopSidxGap - 8)
 			w.close(p)
